@@ -262,6 +262,24 @@ type verifCCHtlc struct {
 	PreKnown   bool `json:"pre"`
 	PreInvoice bool `json:"preInv"`
 
+	// Knowledge SOURCE model (C12; InvState == "" selects the legacy
+	// PreKnown/PreInvoice behaviour above). PreCache: the witness cache
+	// (PreimageDB.LookupPreimage) has the preimage. InvState: what the
+	// invoice registry holds for the hash: "none" (lookup fails with
+	// ErrInvoiceNotFound / ErrNoInvoicesCreated), "open", "accepted",
+	// "settled", "canceled"; InvPre: that invoice carries the preimage in
+	// its terms (false = hold invoice whose preimage is not known yet).
+	// PreKnown stays the reference verdict written from the statement
+	// (cache has it, or a not-canceled invoice carries it). PreNeutral:
+	// the one debatable class (only source is a CANCELED invoice that
+	// carries the preimage) - neither "known" nor "unknown" for any
+	// verdict. PreSrc names the class for the counters.
+	PreCache   bool   `json:"preCache,omitempty"`
+	InvState   string `json:"invState,omitempty"`
+	InvPre     bool   `json:"invPre,omitempty"`
+	PreNeutral bool   `json:"preNeutral,omitempty"`
+	PreSrc     string `json:"preSrc,omitempty"`
+
 	// Forwarded: IsForwardedHTLC answer for an offered HTLC.
 	Forwarded bool `json:"fwd"`
 
@@ -548,8 +566,12 @@ type verifCCWorld struct {
 	resolvedN   int
 	resolvedBad []string
 	beacon      map[lntypes.Hash]lntypes.Preimage
-	invoice     map[lntypes.Hash]lntypes.Preimage
+	invoice     map[lntypes.Hash]*verifCCInvoice
 	exitHop     map[lntypes.Hash]bool
+
+	// noInvoicesCreated: a registry without any invoice answers
+	// ErrNoInvoicesCreated instead of ErrInvoiceNotFound.
+	noInvoicesCreated bool
 	closed      *channeldb.ChannelCloseSummary
 	closedN     int
 	broadcastN  int
@@ -600,7 +622,7 @@ func verifCCNewWorld(kv *verifCCKV, htlcs []verifCCHtlc, withPending bool,
 		spends:      map[wire.OutPoint]*chainntnfs.SpendDetail{},
 		ourTx:       map[chainhash.Hash]bool{},
 		beacon:      map[lntypes.Hash]lntypes.Preimage{},
-		invoice:     map[lntypes.Hash]lntypes.Preimage{},
+		invoice:     map[lntypes.Hash]*verifCCInvoice{},
 		exitHop:     map[lntypes.Hash]bool{},
 		incubated:   map[wire.OutPoint]*verifCCIncubate{},
 		roles:       map[wire.OutPoint]verifCCRole{},
@@ -609,11 +631,30 @@ func verifCCNewWorld(kv *verifCCKV, htlcs []verifCCHtlc, withPending bool,
 	}
 	for i := range htlcs {
 		h := &htlcs[i]
+		if h.InvState != "" {
+			// Knowledge source model.
+			if h.PreCache {
+				w.beacon[h.hash()] = h.preimage()
+			}
+			if inv := verifCCInvoiceFor(h); inv != nil {
+				w.invoice[h.hash()] = inv
+				if h.Incoming {
+					w.exitHop[h.hash()] = true
+				}
+			}
+
+			continue
+		}
 		if !h.PreKnown {
 			continue
 		}
 		if h.Incoming && h.PreInvoice {
-			w.invoice[h.hash()] = h.preimage()
+			w.invoice[h.hash()] = &verifCCInvoice{
+				pre: h.preimage(), hasPre: true,
+				state: invoices.ContractOpen,
+				amt:   lnwire.MilliSatoshi(h.AmtMsat),
+				idx:   h.Idx, expiry: h.Expiry,
+			}
 			w.exitHop[h.hash()] = true
 		} else {
 			w.beacon[h.hash()] = h.preimage()
@@ -912,19 +953,113 @@ func (w *verifCCWorld) learnPreimages(p *verifCCProc,
 
 // --- Registry
 
+// verifCCInvoice is what the registry stub knows about one payment hash; it
+// is rendered as the invoices.Invoice the real registry would return from the
+// invoice DB for an invoice in that state.
+type verifCCInvoice struct {
+	pre    lntypes.Preimage
+	hasPre bool // false: hold invoice, preimage not known (yet)
+	state  invoices.ContractState
+	amt    lnwire.MilliSatoshi
+	idx    uint64 // HTLC id of the paying HTLC
+	expiry uint32
+}
+
+// verifCCInvoiceFor translates the knowledge source model of an HTLC into the
+// registry's invoice (nil: no invoice for the hash).
+func verifCCInvoiceFor(h *verifCCHtlc) *verifCCInvoice {
+	inv := &verifCCInvoice{
+		pre: h.preimage(), hasPre: h.InvPre,
+		amt: lnwire.MilliSatoshi(h.AmtMsat), idx: h.Idx,
+		expiry: h.Expiry,
+	}
+	switch h.InvState {
+	case "open":
+		inv.state = invoices.ContractOpen
+	case "accepted":
+		inv.state = invoices.ContractAccepted
+	case "settled":
+		inv.state = invoices.ContractSettled
+	case "canceled":
+		inv.state = invoices.ContractCanceled
+	default:
+		return nil
+	}
+
+	return inv
+}
+
+func (w *verifCCWorld) renderInvoice(h lntypes.Hash,
+	vi *verifCCInvoice) invoices.Invoice {
+
+	created := time.Unix(1699990000, 0)
+	inv := invoices.Invoice{
+		Memo:         []byte("verif"),
+		CreationDate: created,
+		State:        vi.state,
+		HodlInvoice:  !vi.hasPre || vi.state == invoices.ContractAccepted,
+		Terms: invoices.ContractTerm{
+			FinalCltvDelta: 1,
+			Expiry:         24 * time.Hour,
+			Value:          vi.amt,
+		},
+		Htlcs: map[models.CircuitKey]*invoices.InvoiceHTLC{},
+	}
+	inv.Terms.PaymentAddr[0] = 1
+	copy(inv.Terms.PaymentAddr[1:], h[:])
+	if vi.hasPre {
+		pre := vi.pre
+		inv.Terms.PaymentPreimage = &pre
+	}
+
+	// The paying HTLC as the invoice DB records it in that state (an open
+	// invoice has not seen it yet).
+	htlc := &invoices.InvoiceHTLC{
+		Amt:          vi.amt,
+		MppTotalAmt:  vi.amt,
+		AcceptHeight: 900,
+		AcceptTime:   created.Add(time.Minute),
+		Expiry:       vi.expiry,
+	}
+	key := models.CircuitKey{ChanID: w.scid, HtlcID: vi.idx}
+	switch vi.state {
+	case invoices.ContractAccepted:
+		htlc.State = invoices.HtlcStateAccepted
+		inv.Htlcs[key] = htlc
+
+	case invoices.ContractSettled:
+		htlc.State = invoices.HtlcStateSettled
+		htlc.ResolveTime = created.Add(2 * time.Minute)
+		inv.Htlcs[key] = htlc
+		inv.AmtPaid = vi.amt
+		inv.SettleDate = htlc.ResolveTime
+		inv.SettleIndex = 1
+
+	case invoices.ContractCanceled:
+		htlc.State = invoices.HtlcStateCanceled
+		htlc.ResolveTime = created.Add(2 * time.Minute)
+		inv.Htlcs[key] = htlc
+	}
+
+	return inv
+}
+
 func (p *verifCCProc) LookupInvoice(_ context.Context,
 	h lntypes.Hash) (invoices.Invoice, error) {
 
 	p.w.mu.Lock()
-	pre, ok := p.w.invoice[h]
+	vi, ok := p.w.invoice[h]
+	empty := len(p.w.invoice) == 0 && p.w.noInvoicesCreated
 	p.w.mu.Unlock()
 	if !ok {
+		if empty {
+			return invoices.Invoice{}, invoices.ErrNoInvoicesCreated
+		}
+
 		return invoices.Invoice{}, invoices.ErrInvoiceNotFound
 	}
 
-	return invoices.Invoice{
-		Terms: invoices.ContractTerm{PaymentPreimage: &pre},
-	}, nil
+	return p.w.renderInvoice(h, vi), nil
 }
 
 func (p *verifCCProc) NotifyExitHopHtlc(payHash lntypes.Hash,
@@ -937,7 +1072,7 @@ func (p *verifCCProc) NotifyExitHopHtlc(payHash lntypes.Hash,
 		return nil, verifCCErrDead
 	}
 	p.w.mu.Lock()
-	pre, ok := p.w.invoice[payHash]
+	vi, ok := p.w.invoice[payHash]
 	p.w.mu.Unlock()
 	if !ok {
 		return invoices.NewFailResolution(
@@ -945,8 +1080,27 @@ func (p *verifCCProc) NotifyExitHopHtlc(payHash lntypes.Hash,
 		), nil
 	}
 
+	// What the real registry answers for an invoice in that state.
+	switch {
+	case vi.state == invoices.ContractCanceled:
+		return invoices.NewFailResolution(
+			circuitKey, currentHeight,
+			invoices.ResultInvoiceAlreadyCanceled,
+		), nil
+
+	case !vi.hasPre:
+		// Hold invoice without a preimage: the HTLC is held.
+		return nil, nil
+
+	case vi.state == invoices.ContractSettled:
+		return invoices.NewSettleResolution(
+			vi.pre, circuitKey, currentHeight,
+			invoices.ResultReplayToSettled,
+		), nil
+	}
+
 	return invoices.NewSettleResolution(
-		pre, circuitKey, currentHeight, invoices.ResultSettled,
+		vi.pre, circuitKey, currentHeight, invoices.ResultSettled,
 	), nil
 }
 
